@@ -15,7 +15,8 @@ use std::time::{Duration, Instant};
 pub const T0: i64 = 1_700_000_000; // 2023-11-14T22:13:20Z: transition instant of every custom zone
 const N_CUSTOM: usize = 8;
 // EST5EDT exists as a file and is also a (rule-less) POSIX name: the file must win
-const SYSTEM_ZONES: [&str; 5] = ["Europe/Berlin", "EST5EDT", "Asia/Kolkata", "Australia/Lord_Howe", "Pacific/Chatham"];
+// the last one names its file through a parent-directory component: still a name under the zoneinfo directory
+const SYSTEM_ZONES: [&str; 6] = ["Europe/Berlin", "EST5EDT", "Asia/Kolkata", "Australia/Lord_Howe", "Pacific/Chatham", "Europe/../Asia/Tokyo"];
 const RULES: [&str; 4] = ["AAA-1:17", "XYZ3:33:03", "<+0545>-5:45", "QQQ8RRR,M3.2.0,M11.1.0"];
 const GARBAGE: [&str; 5] = ["!!garbage", "Not/AZone", ":", "EST5EDT,bogus", ":/nonexistent/verif/zone"];
 
